@@ -447,6 +447,21 @@ def gen_structured(C, rng, th):
                     add(T, "brillhart", [q], "brillhart", p=q, nomodel=B == 128 and not up)
                     add(T, "sumofsquares.noerh", [nr, q], "sos", k=nr, p=q, nomodel=B == 128)
                 add(T, "sumofsquares.det", [nr * r % q, q], "sos", k=nr * r % q, p=q, nomodel=B == 128)
+    # integer roots, symbols and logp at the word boundaries (single GMP calls / the table loop of logp)
+    for B in (16, 32, 64, 128):
+        for r in ((1 << B) - 1, 1 << B, (1 << B) + 1):
+            for a in (r * r - 1, r * r, r * r + 1, r * r + 2 * r):
+                for f in ("sqrt.ra", "sqrt.a"):
+                    add(T, f, [a], "isqrt", a=a)
+                for f in ("sqrtrem.rar", "sqrtrem.ar"):
+                    add(T, f, [a], "isqrtrem", a=a)
+            for e in (2, 3, 5):
+                for a in (r ** e - 1, r ** e, r ** e + 1):
+                    add(T, "root", [a, e], "iroot", a=a, e=e)
+            for bq in (r | 1, (r | 1) + 2):
+                for a in (2, -1, r - 2, -(1 << B), (1 << (2 * B)) + 1):
+                    add(T, "jacobi", [a, bq], "jacobi", a=a, b=bq)
+                    add(T, "kronecker", [a, -2 * bq], "kronecker", a=a, b=-2 * bq)
     # ---- large exponents: prime powers, 2 p^m, 2^e m
     T = "bigexp"
     EXP = (31, 32, 33, 63, 64, 65, 66, 127, 128, 129)
@@ -1057,6 +1072,76 @@ def corresponds(c, iout, mout):
     return ti[:n] == tm[:n]
 
 
+# ------------------------------------------------------------------------------------------------ source tie
+# Constants, thresholds, branch conditions and the candidate order the theorems depend on are READ from /repo's current
+# source on every run and compared with what coq/C13/Model.v contains (also read, not hard-coded here).  A difference means the
+# theorems of Properties.v speak about another algorithm than the compiled one: reported as a broken obligation.
+def _norm(m):
+    return tuple(int(x) if (isinstance(x, str) and x.lstrip("-").isdigit()) else x for x in (m if isinstance(m, tuple) else (m,)))
+
+
+SQ_INL = "src/kernel/integer/givintsqrootmod.inl"
+NT_INL = "src/kernel/integer/givintnumtheo.inl"
+# (name, source file, source regex, Model.v regex, map source groups -> model groups)
+TIE = [
+    ("2^k: linear lifting below k", SQ_INL, r"if\s*\(\s*k\s*<\s*(\d+)\s*\)\s*return\s+sqroottwolinear", r"else if k <\? (\d+) then sqroottwolinear tmpa k", None),
+    ("p^k: linear lifting below k", SQ_INL, r"if\s*\(\s*k\s*<\s*(\d+)\s*\)\s*return\s+sqrootlinear", r"else if k <\? (\d+) then sqrootlinear a p k draws", None),
+    ("class p = 3 mod 4", SQ_INL, r"if\s*\(\(p\s*&\s*(\d+)U\)\s*==\s*(\d+)U\)\s*\{\s*//\s*If p = 3 mod 4", r"if p mod (\d+) =\? (\d+) then Some \(powmod amp \(\(p \+ 1\) / 4\) p\)", lambda g: (g[0] + 1, g[1])),
+    ("class p = 5 mod 8 (Atkin)", SQ_INL, r"if\s*\(\(p\s*&\s*(\d+)U\)\s*==\s*(\d+)U\)\s*\{\s*//\s*If p = 5 mod 8", r"if p mod (\d+) =\? (\d+) then\s+let tmp := powmod amp \(\(p - 1\) / 4\) p", lambda g: (g[0] + 1, g[1])),
+    ("class p = 9 mod 16 (Mueller)", SQ_INL, r"if\s*\(\(p\s*&\s*(\d+)U\)\s*==\s*(\d+)U\)\s*\{\s*//\s*If p = 9 mod 16", r"else if p mod (\d+) =\? (\d+) then mueller amp p draws", lambda g: (g[0] + 1, g[1])),
+    ("exponent (p+1)/4", SQ_INL, r"Rep ppu \(p\);\s*\+\+ppu;\s*ppu >>= (\d+)U;", r"powmod amp \(\(p \+ 1\) / (\d+)\) p", lambda g: (2 ** g[0],)),
+    ("exponent (p+3)/8", SQ_INL, r"puis = p;\s*puis \+= (\d+)U;\s*puis >>= (\d+)U;", r"if tmp =\? 1 then Some \(powmod amp \(\(p \+ (\d+)\) / (\d+)\) p\)", lambda g: (g[0], 2 ** g[1])),
+    ("exponent (p-5)/8", SQ_INL, r"puis = p;\s*puis -= (\d+)U;\s*puis >>= (\d+)U;\s*//\s*puis = \(p-5\)/8", r"powmod \(amp \* 4\) \(\(p - (\d+)\) / (\d+)\) p", lambda g: (g[0], 2 ** g[1])),
+    ("exponent (p-9)/16", SQ_INL, r"puis = p;\s*puis -= (\d+)U;\s*puis >>= (\d+)U;\s*//\s*puis = \(p-9\)/16", r"powmod i1 \(\(p - (\d+)\) / (\d+)\) p", lambda g: (g[0], 2 ** g[1])),
+    ("Tonelli-Shanks exponent: Integer shift of 1 by r-m-1", SQ_INL,
+     r"Rep b2k, t, (puis)\(r\);[\s\S]*?int64_t lpuis = (r); lpuis -= (m); (--)lpuis;\s*puis = (1); puis (<<=) lpuis;\s*//[^\n]*\n\s*powmod \(t, y, puis, p\);",
+     r"let lpuis := (r) - (m) - (1) in\s+let puis := (shl) (1) lpuis in\s+let t := powmod y (puis) p in",
+     lambda g: (g[1], g[2], 1 if g[3] == "--" else g[3], "shl" if g[5] == "<<=" else g[5], g[4], g[0])),
+    ("2^k linear loop start (pk, pk2, i)", SQ_INL, r"Rep pk\((\d+)\);\s*Rep pk2\((\d+)\);\s*for\(uint64_t i=(\d+);i<=k;i\+\+\)", r"twolinear_loop \(Z\.to_nat \(k - (\d+)\)\) x a (\d+) (\d+)", lambda g: (g[2] - 1, g[0], g[1])),
+    ("2^k odd-k correction pk>>2", SQ_INL, r"return x \+= pk>>(\d+);", r"if u =\? 0 then x1 else x1 \+ pk / (\d+)", lambda g: (2 ** g[0],)),
+    ("phi guards", NT_INL, r"if \(Rep::isleq\(n,(\d+)\)\) return res=n;\s*if \(Rep::isleq\(n,(\d+)\)\) return Rep::sub\(res,n,this->one\);\s*res = n;", r"if n <=\? (\d+) then n else if n <=\? (\d+) then n - 1 else phi_loop n Lf", None),
+    ("prim_root guards n<=4, 4|n", NT_INL, r"if \(Rep::isleq\(n,(\d+)\)\)\s*return this->sub\(A,n,this->one\);\s*if \(this->isZero\(this->mod\(A,n,(\d+)\)\)\)\s*return A=this->zero;\s*Rep p,ismod2", r"if n <=\? (\d+) then Some \(n - 1, 0\) else\s+if n mod (\d+) =\? 0 then Some \(0, 0\) else", None),
+    ("prim_root fixed candidates", NT_INL, r"runs = 0;\s*A=(\d+);[\s\S]*?A=(\d+);[\s\S]*?A=(\d+);[\s\S]*?A=(\d+);[\s\S]*?while \(! found\)", r"if pr_test (\d+) p Lq then Some \(\d+, 1\) else\s+if pr_test (\d+) p Lq then Some \(\d+, 2\) else\s+if pr_test (\d+) p Lq then Some \(\d+, 3\) else\s+if pr_test (\d+) p Lq then Some \(\d+, 4\) else", None),
+    ("prim_root random candidate range", NT_INL, r"this->addin\( this->modin\(A,this->sub\(tmp,p,(\d+)\)\) , (\d+)\);", r"if \((\d+) <=\? cand\) && \(cand <\? p\)", lambda g: (g[1],) if g[0] == g[1] else ("mismatch",)),
+    ("lambda_inv_primpow p = 2", NT_INL, r"if \(e<=(\d+)\)\s*return this->init\(z,e\);\s*if \(e==(\d+)\)\s*return this->init\(z,(\d+)\);\s*return dom_power\(z, p, \(long\)e-(\d+), \*this\);", r"Definition lambda_inv_primpow \(p e : Z\) : Z :=\s+if p =\? 2 then \(if e <=\? (\d+) then e else if e =\? (\d+) then (\d+) else 2 \^ \(e - (\d+)\)\)", None),
+    ("lambda_primpow p = 2", NT_INL, r"if \(e<=(\d+)\) return this->init\(z,e\);\s*return dom_power\(z, p, e-(\d+), \*this\);", r"Definition lambda_primpow \(p e : Z\) : Z :=\s+if p =\? 2 then \(if e <=\? (\d+) then e else 2 \^ \(e - (\d+)\)\)", None),
+    ("prim_root_of_prime: first prime, order correction of the second phase", NT_INL,
+     r"Rep prime\((\d+)\), Aorder=this->one;[\s\S]*?(ppin)\(g, \*f\);\s*(ppin)\(Aorder, \*f\);\s*\}\s*this->powmod\(tmp, prime, g, n\);[\s\S]*?this->mulin\(Aorder, this->div\(tmp, (phin), (g)\)\);",
+     r"let g := fold_left \(fun g f => (ppin) \(log2_fuel g\) g f\) oldLf phin in\s+let Ao := fold_left \(fun g f => (ppin) \(log2_fuel g\) g f\) oldLf Aorder in[\s\S]*?\(Ao \* \((phin) / (g)\)\)[\s\S]*?prp_first 200 (\d+) n phin Lf",
+     lambda g: (g[1], g[2], g[3], g[4], g[0])),
+    ("Brillhart: fold x into [0, p/2], loop bound", SQ_INL, r"b=x>\(p>>(\d+)\)\?p-x:x;[\s\S]*?if \(! this->isOne\(a\)\) \{\s*while\(a>s\)", r"let b := if p / (\d+) <\? x then p - x else x in\s+let a := p mod b in\s+if a =\? 1 then Some \(a, b\) else", lambda g: (2 ** g[0],)),
+]
+
+
+def source_tie(chk):
+    import re
+    model = open(os.path.join(vf.coq_dir(AREA), "Model.v")).read()
+    rows = []; bad = []
+    cache = {}
+    for name, fn, rs, rm, mp in TIE:
+        if fn not in cache:
+            try:
+                cache[fn] = open(os.path.join(vf.REPO, fn)).read()
+            except OSError as ex:
+                cache[fn] = ""
+        ms = re.search(rs, cache[fn]); mm = re.search(rm, model)
+        if mm is None:
+            bad.append("%s: pattern not found in Model.v (tie out of date)" % name); continue
+        if ms is None:
+            bad.append("%s: the statement the model was written after is no longer in %s" % (name, fn)); continue
+        gs = _norm(ms.groups()); gm = _norm(mm.groups())
+        try:
+            gs2 = _norm(mp(gs)) if mp else gs
+        except Exception as ex:
+            gs2 = ("unmappable",) + gs
+        rows.append({"what": name, "source": list(gs), "model": list(gm), "agree": gs2 == gm})
+        if gs2 != gm:
+            bad.append("%s: source has %s, Model.v (and the theorems about it) has %s" % (name, list(gs), list(gm)))
+    chk.cov["source_tie"] = rows
+    for b in bad[:12]:
+        chk.broke("source constant / statement differs from the model: " + b)
+    return not bad
+
 # ------------------------------------------------------------------------------------------------ build
 PROBE = """#include "gmp++/gmp++.h"
 #include "givinteger.h"
@@ -1096,39 +1181,67 @@ def build_impl(chk):
     return b, log, have
 
 
-def run_parallel(binary, lines, nproc=6, timeout=300, restarts=12):
+def run_parallel(binary, lines, nproc=6, timeout=300, restarts=12, stall=None, max_stalls=4):
     """run the line-protocol binary on `lines` split round-robin over nproc processes.  A process that dies or hangs on a
-    line gets the output CRASH for that line and is restarted on the rest (at most 12 restarts per chunk).
+    line gets the output CRASH for that line and is restarted on the rest (at most `restarts` restarts per chunk).
+    timeout: limit for one process run; stall: limit for the time WITHOUT a new output line (a hang is then found after
+    `stall` seconds instead of `timeout`); after max_stalls hangs a chunk is abandoned (its remaining lines stay None).
     returns (ok, outputs in order, err)"""
     if not lines:
         return True, [], ""
     nproc = max(1, min(nproc, len(lines) // 200 + 1))
     chunks = [lines[i::nproc] for i in range(nproc)]
-    import threading
+    import threading, time as _tm
     res = [None] * nproc
 
+    def run_once(todo):
+        pr = subprocess.Popen([binary], stdin=subprocess.PIPE, stdout=subprocess.PIPE, stderr=subprocess.DEVNULL, universal_newlines=True, errors="replace")
+        got = []; last = [_tm.time()]
+
+        def feed():
+            try:
+                pr.stdin.write("".join(l + "\n" for l in todo)); pr.stdin.close()
+            except (BrokenPipeError, OSError, ValueError):
+                pass
+
+        def read():
+            for l in pr.stdout:
+                got.append(l); last[0] = _tm.time()
+        tf = threading.Thread(target=feed, daemon=True); tr = threading.Thread(target=read, daemon=True)
+        tf.start(); tr.start()
+        t0 = _tm.time(); rc = None
+        while True:
+            rc = pr.poll()
+            if rc is not None:
+                break
+            now = _tm.time()
+            if now - t0 > timeout or (stall is not None and now - last[0] > stall):
+                pr.kill(); pr.wait(); rc = 124
+                break
+            _tm.sleep(0.05)
+        tr.join(10); tf.join(2)
+        ol = [l.rstrip("\n") for l in got if l.endswith("\n")]          # a last line without newline is incomplete
+        return rc, ol
+
     def work(i):
-        todo = chunks[i]; outs = []; errs = ""
+        todo = chunks[i]; outs = []; errs = ""; stalls = 0
         for attempt in range(restarts + 1):
             if not todo:
                 break
-            pr = subprocess.Popen([binary], stdin=subprocess.PIPE, stdout=subprocess.PIPE, stderr=subprocess.PIPE, universal_newlines=True, errors="replace")
-            try:
-                o, e = pr.communicate("".join(l + "\n" for l in todo), timeout=timeout)
-                rc = pr.returncode
-            except subprocess.TimeoutExpired as ex:
-                pr.kill(); o, e = pr.communicate(); rc = 124
-            ol = o.splitlines()
-            if rc != 0 and ol and not o.endswith("\n"):
-                ol = ol[:-1]
+            rc, ol = run_once(todo)
             ol = ol[:len(todo)]
             outs += ol
             if len(ol) == len(todo):
                 todo = []
                 break
-            errs += "rc=%s at `%s` %s\n" % (rc, todo[len(ol)][:200], (e or "")[-200:])
+            errs += "rc=%s at `%s`\n" % (rc, todo[len(ol)][:200])
             outs.append("CRASH rc=%s" % rc)
             todo = todo[len(ol) + 1:]
+            if rc == 124:
+                stalls += 1
+                if stalls >= max_stalls:
+                    errs += "chunk abandoned after %d hangs, %d lines not run\n" % (stalls, len(todo))
+                    break
         res[i] = (outs, errs, len(todo) == 0)
     ths = [threading.Thread(target=work, args=(i,)) for i in range(nproc)]
     [t.start() for t in ths]; [t.join() for t in ths]
@@ -1163,6 +1276,7 @@ def main(tier, replay=None):
     ph = {}; t0 = _t.time()
     res = vf.coq_check_props(AREA)
     chk.proof_result(res, AREA)
+    source_tie(chk)
     ph["coq"] = round(_t.time() - t0, 1); t0 = _t.time()
     # 2. executables
     drv, l1 = vf.ocaml_build(AREA) if os.path.exists(os.path.join(vf.coq_dir(AREA), "ocaml", "model.ml")) else (None, "extraction did not run")
@@ -1196,7 +1310,7 @@ def main(tier, replay=None):
                 chk.fail_input(S_NT + "prim_root_of_prime", "n=%d" % pc["n"], dict(pc), "a primitive root of the prime n", "no result within 4 s", "the call does not terminate")
     ilines = ["%s %s" % (c["iop"], " ".join(str(x) for x in c["iargs"])) for c in cases]
     tmo = 1500 if tier == "thorough" else 280
-    okr, iout, ierr = run_parallel(himpl, ilines, timeout=tmo)
+    okr, iout, ierr = run_parallel(himpl, ilines, nproc=8, timeout=tmo, stall=240 if tier == "thorough" else 90)
     crashed = [i for i, o in enumerate(iout) if o is None or o.startswith("CRASH")]
     for i in crashed[:40]:
         chk.fail_input("harness:" + cases[i]["iop"], "crash-or-hang", dict(cases[i]), "a result line", str(iout[i]), "the implementation crashed or hung on this case; " + ierr[-300:])
@@ -1210,7 +1324,7 @@ def main(tier, replay=None):
     if drv:
         # a fixed pseudo-random permutation spreads the expensive traces evenly over the processes
         idx.sort(key=lambda i: (i * 2654435761) % 4294967291)
-        okm, mo, merr = run_parallel(drv, [mlines[i] for i in idx], nproc=8, timeout=tmo, restarts=3)
+        okm, mo, merr = run_parallel(drv, [mlines[i] for i in idx], nproc=12, timeout=tmo, restarts=3)
         # a time-out of the extracted model (machine load) is an inconclusive stream, recorded, never a violation
         slow = [j for j, o in enumerate(mo) if o is None or o.startswith("CRASH rc=124")]
         died = [j for j, o in enumerate(mo) if o is not None and o.startswith("CRASH") and not o.startswith("CRASH rc=124")]
@@ -1260,6 +1374,16 @@ def main(tier, replay=None):
                        "a = residue / non-residue / divisible by p^t / negative / unreduced) through self-certifying checks; "
                        "non-trivial = some argument of magnitude > 1; distinct = (call form, arguments)")
     chk.cov["traces_validated_against_impl"] = ncorr
+    forms = {}
+    for c in cases:
+        forms[c["iop"]] = forms.get(c["iop"], 0) + 1
+    chk.cov["call_forms"] = dict(sorted(forms.items()))                # every public call form driven by the harness: cases per form
+    chk.cov["structured_moduli"] = {"primes_c2^s+1": STRUCT.get("primes", []), "cases_per_group_and_form": STRUCT.get("counts", {}),
+                                    "total": STRUCT.get("total", 0),
+                                    "rule": "deterministic on every run and for every seed: least-c Proth primes c*2^s+1 for s around 32/64/128/192 (primality PROVED "
+                                            "at check time by a Proth witness) + 2^64-2^32+1 + 2^251+17*2^192+1, residues of every 2-power order 2^j with the "
+                                            "Tonelli-Shanks shift s-j-1 on both sides of 32/64/128, -1, (p-1)/2, small squares, the 2-Sylow generator (non-residue); "
+                                            "primes next to 2^32/2^64/2^128 in every class mod 16; p^e, 2p^e, 2^e m with e and the p-adic valuation of a around the word sizes"}
     ph["compare"] = round(_t.time() - t0, 1); chk.cov["phase_seconds"] = ph
     chk.cov["distribution_by_kind_and_class"] = dist
     chk.cov["cases_without_model_oracle_only"] = len(cases) - len(idx)
